@@ -141,6 +141,31 @@ pub fn run(rep: &mut Rep) {
                     sim.settle();
                     rep.add("oversized_requests_with_a_publish_in_flight", 1);
                 }
+                // every other oversized case has a subscription with a live stream established beforehand: the refusal must
+                // leave that registration (and its stream) alone
+                let established = m.map(|m| l > m && m >= 16).unwrap_or(false) && (idx / 4) % 2 == 1;
+                let mut est_stream = None;
+                if established {
+                    let s = sim.start_op(0, OpSpec::Subscribe(SubSpec::simple("e")));
+                    sim.settle();
+                    sim.parse_wire();
+                    let sub_pid = sim.wire.iter().rev().find_map(|w| match &w.pkt {
+                        Ok(CPacket::Subscribe(x)) => Some((x.id, x.props.iter().find_map(|p| match (&p.id, &p.val) { (11, rc::PVal::Var(v)) => Some(*v), _ => None }))),
+                        _ => None,
+                    });
+                    if let Some((pid, Some(sid))) = sub_pid {
+                        sim.feed_packet(&SPacket::Suback { id: pid, props: vec![], reasons: vec![0] });
+                        sim.settle();
+                        if let Some(st) = sim.take_stream(s) {
+                            est_stream = Some((st, sid));
+                            rep.add("oversized_requests_with_an_established_subscription", 1);
+                        }
+                    }
+                    let _ = poster::verif::drain();
+                    let z = sim.start_op(0, OpSpec::Publish(PubSpec::simple(0, "w", b"")));
+                    sim.settle();
+                    let _ = z;
+                }
                 let before_snap = poster::verif::drain().last().cloned();
                 let w0 = sim.written_len();
                 // keep identifier allocation aligned with the twin
@@ -184,6 +209,15 @@ pub fn run(rep: &mut Rep) {
                         }
                         if a.retransmit != b.retransmit {
                             viol(rep, format!("C12/h3/retransmit-entry-left-behind/{kind}"), &id, format!("retransmit {:?} -> {:?}", b.retransmit, a.retransmit), &sim);
+                        }
+                    }
+                    // the established subscription still gets its messages
+                    if let Some((st, sid)) = est_stream {
+                        sim.feed_packet(&SPacket::Publish(rc::Publish { dup: false, qos: 0, retain: false, topic: "e".into(), id: None, props: vec![Prop::var(11, sid)], payload: b"still here".to_vec() }));
+                        sim.settle();
+                        sim.drain_stream(st);
+                        if sim.streams[st].items.len() != 1 || sim.streams[st].ended {
+                            viol(rep, format!("C12/stream-registration-disturbed/{kind}"), &id, format!("after the refused request the stream of a subscription established before it yielded {} items (ended: {}) for one PUBLISH carrying its identifier", sim.streams[st].items.len(), sim.streams[st].ended), &sim);
                         }
                     }
                     // black box: the quota is untouched (R small publishes are still accepted) ...
